@@ -13,6 +13,7 @@ import (
 	"time"
 
 	psatoken "github.com/veraison/psatoken"
+	"github.com/veraison/psatoken/encoding"
 	"github.com/veraison/psatoken/zzverif/simrt"
 )
 
@@ -50,12 +51,12 @@ type concWorld struct{}
 func (concWorld) Name() string { return "W-CONC" }
 
 var concPrivateOps = []string{"new", "dec-cbor", "decv-cbor", "dec-json", "decv-json", "dec-cose", "decv-cose", "build-enc", "sign", "sign-verify", "dec-cbor-damaged", "dec-json-damaged",
-	"dec-json-dep", "decv-json-dep", "unmarshal-cose", "claims-unmarshal"}
-var concSharedOps = []string{"s.validate", "s.getters", "s.enc-cbor", "s.enc-json", "s.venc", "s.verify", "s.evjson", "s.full"}
+	"dec-json-dep", "decv-json-dep", "unmarshal-cose", "claims-unmarshal", "dec-iface-ext"}
+var concSharedOps = []string{"s.validate", "s.getters", "s.enc-cbor", "s.enc-json", "s.venc", "s.verify", "s.evjson", "s.full", "s.evids"}
 
 func (concWorld) Gen(prop, tier string, idx int, r *Rng) *Trace {
 	var cfg ConcCfg
-	fams := []string{"p1", "p2", "p1", "p2", "xp2", "xp1", "xw"}
+	fams := []string{"p1", "p2", "p1", "p2", "xp2", "xp1", "xw", "xk", "xc"}
 	nClaims := r.Range(2, 5)
 	for i := 0; i < nClaims; i++ {
 		pf := fams[i%2]
@@ -221,6 +222,20 @@ func (e *concEnv) do(op Op) string {
 		return digestClaims(psatoken.DecodeClaimsFromJSON(cp(e.jsn[ci])))
 	case "decv-json":
 		return digestClaims(psatoken.DecodeAndValidateClaimsFromJSON(cp(e.jsn[ci])))
+	case "dec-iface-ext":
+		// an extension that embeds the IClaims INTERFACE holding a NewClaims result and decodes
+		// through the embedding-aware helpers (a shape they support)
+		inner, err := psatoken.NewClaims(profileNameOf(cfg.Claims[ci].Prof))
+		if err != nil {
+			return "err"
+		}
+		x := &XIfaceClaims{IClaims: inner}
+		if op.D%2 == 0 {
+			err = encoding.PopulateStructFromCBOR(xdm, cp(e.cbor[ci]), x)
+		} else {
+			err = encoding.PopulateStructFromJSON(cp(e.jsn[ci]), x)
+		}
+		return digestClaims(x.IClaims, err)
 	case "dec-json-dep":
 		return digestClaims(psatoken.DecodeUnvalidatedJSONClaims(cp(e.jsn[ci]))) //nolint:staticcheck
 	case "decv-json-dep":
@@ -319,6 +334,8 @@ func (e *concEnv) do(op Op) string {
 		return hash8(readCall(l, "ev.json", 0))
 	case "s.full":
 		return hash8(fullObs(l.claims))
+	case "s.evids":
+		return readCall(l, "ev.instid", 0) + "/" + readCall(l, "ev.implid", 0)
 	}
 	return "?"
 }
